@@ -10,7 +10,10 @@ from .. import core, realcode, extract
 
 BLANK = ('blank',)
 STRS = ['', 'a', 'abc', 'ABC', 'a??', 'a*b', '~?x', '[x]', 'a.b', '??', '*', '~*', 'x~', '#N/A', '#VALUE!', '7', '12.5', '-3', '1e3', 'TRUE',
-        '2024-02-29', 'Hello World', 'a?c*', '(', '\\d', '>5', '<=3', '<>x', '=3', 'D', 'M', 'Y', 'YM', 'MD']
+        '2024-02-29', 'Hello World', 'a?c*', '(', '\\d', '>5', '<=3', '<>x', '=3', 'D', 'M', 'Y', 'YM', 'MD',
+        # number-like texts with separators, signs, units; wildcard escapes; texts float() has surprises for
+        '1,234', '1,234,567.89', '12,34', '1.234,5', '1 234', '1_234', '5%', '$5', '(5)', '+7', ' 7 ', '1e-3', '.5', '5.', 'nan', 'inf', '0x10',
+        'a~~b', '~~', '~', 'a~', '**', '~**c', 'a\tb', 'two\nlines', "it's", 'q"q', '{x}', '%s']
 NUMS = [0, 1, -1, 2, 3, 5, 10, 26, 27, 52, 100, 702, 703, 2.5, -2.5, 0.5, 1.005, 2.675, 1e3, 12345, -0.0001, 1900, 2024, 12, 13, 31, -5]
 DATES = [datetime.datetime(2024, 2, 29), datetime.datetime(2023, 1, 31), datetime.datetime(1999, 12, 31, 23, 59, 59), datetime.datetime(2024, 3, 1),
          datetime.date(2024, 2, 29)]
